@@ -389,6 +389,7 @@ class Socket:
         self.fail_write_at = None   # 1-based index of the sendall that raises
         self.nwrites = 0
         self.close_calls = 0
+        self.pending_writers = []
 
     def recv(self, n):
         SCHED.park(("recv",), cond=lambda: self.inbound or self.in_eof or self.closed)
@@ -408,8 +409,20 @@ class Socket:
         SCHED.event("recv-reset")
         raise ConnectionResetError(104, "Connection reset by peer")
 
+    def _announce(self, data):
+        """park at the write; a write performed while another thread has announced its own (and, in reality, may be
+        in the middle of it: a large line towards a slow peer) is reported — the bytes of the two could interleave."""
+        me = SCHED.me().name
+        self.pending_writers.append(me)
+        try:
+            SCHED.park(("send", data))
+        finally:
+            self.pending_writers.remove(me)
+        if self.pending_writers:
+            SCHED.event("concurrent-send", me, tuple(self.pending_writers))
+
     def sendall(self, data):
-        SCHED.park(("send", data))
+        self._announce(data)
         self.nwrites += 1
         if self.closed:
             SCHED.event("send-on-closed")
@@ -422,7 +435,7 @@ class Socket:
 
     def send(self, data):
         """a single write(2): may be partial (at most 64 KiB are taken per call, like a full socket buffer)"""
-        SCHED.park(("send", data))
+        self._announce(data)
         self.nwrites += 1
         if self.closed:
             raise OSError(9, "Bad file descriptor")
